@@ -209,18 +209,28 @@ class FilReader(Filterbank):
         if lastread != 0:
             blocks.append((nreads, lastread * self.header.nchans, 0))
 
+        read_view = memoryview(read_buffer)
+        unpack_view = None if unpack_buffer is None else memoryview(unpack_buffer)
+        ends_at_eos = start + nsamps == self.header.nsamples
         for ii, block, skip in track(blocks, description=description, disable=quiet):
             logger.debug(
                 f"read_plan: Reading block {ii}/{nreads}, {block} elements, "
                 f"with skipback={skip}",
             )
-            nbytes = self._file.creadinto(read_buffer, unpack_buffer)
+            # Read only the bytes of this block (the last one can be shorter)
             expected_nbytes = int(block * self.chan_stride)
+            nbytes = self._file.creadinto(
+                read_view[:expected_nbytes],
+                None if unpack_view is None else unpack_view[:block],
+            )
             if nbytes != expected_nbytes:
                 msg = (
                     f"Unexpected number of bytes read from file {nbytes} (actual) "
                     f"!= {expected_nbytes} (expected)"
                 )
+                raise ValueError(msg)
+            if ends_at_eos and ii == len(blocks) - 1 and not self._file.eos():
+                msg = "Unexpected trailing bytes in file (not a whole sample)"
                 raise ValueError(msg)
             if skip != 0:
                 self._file.seek(int(skip * self.chan_stride), whence=1)
